@@ -37,15 +37,34 @@ type schemaCol struct {
 	typid, len int
 }
 
-// catalogSchemas reads the four unexported schema literals of catalog.go from the source of the tree
-// under test (they are composite literals of constants: the AST is their value).
+// the schema literals the catalog code reads with: pg_database and pg_class from catalog.go, the three
+// pg_attribute layouts (PostgreSQL 16, 14-15, 12-13) from dropped.go (fixes/cluster/08: catalog.go's
+// readAttrRows uses dropped.go's tables)
+var schemaNames = []string{"schemaPGDatabase", "schemaPGClass", "schemaPGAttrDropped", "schemaPGAttrDroppedV15", "schemaPGAttrDroppedV12"}
+
+// catalogSchemas reads the unexported schema literals of catalog.go and dropped.go from the source of the
+// tree under test (they are composite literals of constants: the AST is their value).
 func catalogSchemas() (map[string][]schemaCol, error) {
-	fset := token.NewFileSet()
-	f, err := parser.ParseFile(fset, filepath.Join(repoDir(), "pgdump", "catalog.go"), nil, 0)
-	if err != nil {
-		return nil, err
-	}
 	res := map[string][]schemaCol{}
+	for _, file := range []string{"catalog.go", "dropped.go"} {
+		if err := fileSchemas(filepath.Join(repoDir(), "pgdump", file), res); err != nil {
+			return nil, err
+		}
+	}
+	for _, n := range schemaNames {
+		if len(res[n]) == 0 {
+			return nil, fmt.Errorf("schema %s not found in catalog.go / dropped.go", n)
+		}
+	}
+	return res, nil
+}
+
+func fileSchemas(path string, res map[string][]schemaCol) error {
+	fset := token.NewFileSet()
+	f, err := parser.ParseFile(fset, path, nil, 0)
+	if err != nil {
+		return err
+	}
 	var bad error
 	ast.Inspect(f, func(n ast.Node) bool {
 		vs, ok := n.(*ast.ValueSpec)
@@ -116,15 +135,7 @@ func catalogSchemas() (map[string][]schemaCol, error) {
 		res[vs.Names[0].Name] = cols
 		return true
 	})
-	if bad != nil {
-		return nil, bad
-	}
-	for _, n := range []string{"schemaPGDatabase", "schemaPGClass", "schemaPGAttrV15", "schemaPGAttrV16"} {
-		if len(res[n]) == 0 {
-			return nil, fmt.Errorf("schema %s not found in catalog.go", n)
-		}
-	}
-	return res, nil
+	return bad
 }
 
 func leanStr(s string) string {
@@ -152,8 +163,12 @@ func init() {
 			fmt.Fprintln(os.Stderr, "catalog schemas:", err)
 			os.Exit(1)
 		}
-		for _, n := range []string{"schemaPGDatabase", "schemaPGClass", "schemaPGAttrV15", "schemaPGAttrV16"} {
-			fmt.Fprintf(out, "/-- catalog.go:%s as (Name, TypID, Len) -/\ndef %s : List (String × Nat × Int) := [", n, n)
+		for _, n := range schemaNames {
+			src := "catalog.go"
+			if strings.HasPrefix(n, "schemaPGAttrDropped") {
+				src = "dropped.go"
+			}
+			fmt.Fprintf(out, "/-- %s:%s as (Name, TypID, Len) -/\ndef %s : List (String × Nat × Int) := [", src, n, n)
 			for i, c := range schemas[n] {
 				if i > 0 {
 					out.WriteString(", ")
